@@ -11,4 +11,13 @@ CHECKS = {
         ],
         fuzz=[dict(target="FuzzPatternLaws", secs=(0, 60))],
     ),
+    "C06": dict(
+        pkg="./c06", level="exploration",
+        runs=[
+            dict(name="exhaustive", run="^TestExhaustive$", shards=(8, 16)),
+            dict(name="fixed", run="^(TestMountRejects|TestRegress.*)$", shards=(1, 1)),
+            dict(name="random", run="^TestProp", checks=(4000, 30000), shards=(4, 16)),
+        ],
+        fuzz=[dict(target="FuzzLookupNeverPanics", secs=(0, 60))],
+    ),
 }
